@@ -101,7 +101,7 @@ def loaded_and_edited(c, edit_seed, case):
     return g, c2
 
 
-def check_cart(c, via, case, g=None):
+def check_cart(c, via, case, g=None, fname='cart'):
     """c: dict(mem, version, label, code); via in {'stream','file','cli'}."""
     from pico8.game.formatter.p8 import P8Formatter
     from pico8.game import file as pfile
@@ -130,7 +130,7 @@ def check_cart(c, via, case, g=None):
                 raise Violation('re-reading the written .p8 raised %r' % e, case, 'read')
         else:
             td = tempfile.TemporaryDirectory(prefix='c03_')
-            path = os.path.join(td.name, 'cart.p8')
+            path = os.path.join(td.name, fname + '.p8')
             try:
                 pfile.to_file(g, path)
             except Exception as e:
@@ -142,9 +142,9 @@ def check_cart(c, via, case, g=None):
                     raise Violation('`p8tool writep8` raised %r' % e, case, 'write')
                 if rc != 0:
                     raise Violation('`p8tool writep8` returned %r' % rc, case, 'write')
-                path = os.path.join(td.name, 'cart_fmt.p8')
+                path = os.path.join(td.name, fname + '_fmt.p8')
                 if not os.path.exists(path):
-                    raise Violation('`p8tool writep8` did not write cart_fmt.p8', case, 'write')
+                    raise Violation('`p8tool writep8` did not write %s_fmt.p8' % fname, case, 'write')
             data = open(path, 'rb').read()
             try:
                 g2 = pfile.from_file(path)
@@ -220,9 +220,9 @@ def one(ctx, seed, via):
         g, c = loaded_and_edited(c, seed[-12:], case)
         if len(c['mem']) != 0x4300:
             raise Violation('regions have %d bytes in total after library edits' % len(c['mem']), case, 'edit')
-        check_cart(c, via, case, g)
+        check_cart(c, via, case, g, fname=FNAMES[seed[-4] % len(FNAMES)])
     else:
-        check_cart(c, via, {'seed': bytes(seed), 'via': via})
+        check_cart(c, via, {'seed': bytes(seed), 'via': via}, fname=FNAMES[seed[-4] % len(FNAMES)])
     rich = sum(1 for (_n, lo, hi) in cartgen.REGIONS if cartgen.distinct_values(c['mem'][lo:hi]) >= 16)
     nontrivial = rich >= 3 and c['cstats']['has_special_bytes']
     labs = ['via_' + via, 'label' if c['label'] is not None else 'no_label']
@@ -243,6 +243,48 @@ def one(ctx, seed, via):
                     'code': show(c['code'], 120)}, labs)
 
 
+# file names a cart may have (the name ends up in messages the writer and the tool format)
+FNAMES = ('cart', 'level{2}', '{0}', '100%', 'x%s', 'a b', '[1]', "it's", 'm\u00fcll', '{', 'a}{b', '%(x)s', '-q', 'x.p8')
+
+
+def big_case(seed, shape):
+    """Carts at the edges of what PICO-8 takes: a very long line, > 64 KiB of UTF-8, code over the character or
+    token limit (picotool warns and writes it)."""
+    from checks import c15
+    mem, modes = cartgen.memory_from_seed(b'\x02' + seed)
+    if shape in ('lines', 'oneline'):
+        code = c15.big_code(seed[:2], shape)
+    elif shape == 'over_chars':
+        line = b'-- ' + bytes(0x61 + b % 26 for b in expand(b'oc' + seed, 60)) + b'\n'
+        code = b'x=1\n' + line * (65536 // len(line) + 1 + seed[0] % 3)
+    else:
+        code = b'x=0\n' + b'x=x+1 ' * (1700 + seed[0] % 8) + b'\n'
+    return {'mem': mem, 'modes': modes, 'version': 8 + seed[1] % 30, 'label': None, 'code': code, 'crlf': False,
+            'cstats': {}}
+
+
+BIG_SHAPES = ('lines', 'oneline', 'over_chars', 'over_tokens')
+
+
+def part_big(ctx):
+    """One shape per shard; every example runs the shape under a plain and three awkward file names (one with
+    braces, one with a percent sign, one drawn), alternating file / cli / stream."""
+    shape = BIG_SHAPES[ctx.shard % 4]
+
+    def body(v):
+        seed, k = v
+        names = ('cart', ('level{2}', '{0}', 'a}{b', '{')[k % 4], ('100%', 'x%s', '%(x)s')[k % 3], FNAMES[5 + k % 9])
+        c = big_case(seed, shape)
+        for i, fname in enumerate(names):
+            via = ('file', 'cli', 'file', 'stream')[(i + k) % 4]
+            check_cart(c, via, {'big': shape, 'seed': bytes(seed), 'via': via, 'fname': fname}, fname=fname)
+            ctx.stats.case(seed + shape.encode() + via.encode() + fname.encode(), True,
+                           {'big': shape, 'code_chars': len(c['code']), 'via': via, 'file_name': fname + '.p8'},
+                           ['big_' + shape, 'via_' + via] + (['awkward_file_name'] if fname != 'cart' else []))
+    ctx.hyp('big', st.tuples(st.binary(min_size=4, max_size=4), st.integers(0, 35)), body,
+            max_examples=(1 if shape == 'over_tokens' else 2) if ctx.quick else 6, shrink=False)
+
+
 def part_stream(ctx):
     ctx.hyp('stream', st.binary(min_size=160, max_size=160), lambda s: one(ctx, s, 'stream'),
             max_examples=250 if ctx.quick else 1500)
@@ -255,27 +297,31 @@ def part_file(ctx):
 
 def parts(tier):
     if tier == 'quick':
-        return [('stream', part_stream, 3), ('file', part_file, 1)]
-    return [('stream', part_stream, 13), ('file', part_file, 3)]
+        return [('stream', part_stream, 3), ('file', part_file, 1), ('big', part_big, 4)]
+    return [('stream', part_stream, 12), ('file', part_file, 2), ('big', part_big, 8)]
 
 
 def replay(case):
-    if 'seed' in case:
+    if 'big' in case:
+        check_cart(big_case(case['seed'], case['big']), case.get('via', 'file'), case, fname=case.get('fname', 'cart'))
+    elif 'seed' in case:
         c = gen_case(case['seed'])
         if excluded(c['code']):
             return
+        fname = FNAMES[case['seed'][-4] % len(FNAMES)]
         if case.get('edited'):
             g, c = loaded_and_edited(c, case['seed'][-12:], case)
-            check_cart(c, case.get('via', 'stream'), case, g)
+            check_cart(c, case.get('via', 'stream'), case, g, fname=fname)
         else:
-            check_cart(c, case.get('via', 'stream'), case)
+            check_cart(c, case.get('via', 'stream'), case, fname=fname)
     else:
         check_cart(case['cart'], case.get('via', 'stream'), case)
 
 
 def vacuity(total, tier):
     msgs = []
-    for lab in ('label', 'no_label', 'no_final_newline', 'via_cli', 'via_file', 'loaded_then_edited', 'untouched_sfx'):
+    for lab in ('label', 'no_label', 'no_final_newline', 'via_cli', 'via_file', 'loaded_then_edited', 'untouched_sfx', 'big_oneline', 'big_lines',
+                'big_over_chars', 'big_over_tokens', 'awkward_file_name'):
         if total.classes.get(lab, 0) < 3:
             msgs.append('class %s seen %d times' % (lab, total.classes.get(lab, 0)))
     return msgs
